@@ -1,6 +1,11 @@
 """C10 - validate, keys and evaluate agree about whether options suffice."""
-from . import classlaws
+from . import classlaws, cached_l7
 
 
 def build(repo, tier, seed):
-    return classlaws.bundle(repo, tier, seed, ("L3", "L4a", "L4t", "L10"))
+    b = classlaws.bundle(repo, tier, seed, ("L3", "L4a", "L4t", "L10"), classes=classlaws.READY + ["Dataset"])
+    vcs, syn, und = cached_l7.build(repo, faulty=False, label="L7")
+    b["vcs"] += vcs
+    b["syntactic"] += syn
+    b["undecided"] += und
+    return b
